@@ -6,7 +6,7 @@ PROP = "C04"
 RULE = ("sequential histories over {success, failure, slow success, slow failure, wait, force_open, force_closed, reset} with a custom classifier, "
         "both window types, window sizes 1..5, thresholds {0,1/10,1/3,1/2,2/3,1}, minimum below/equal/above the window, permitted 1..3, slow detection on/off; "
         "plus long histories without a transition (the window must slide), histories whose failure rate — and, separately, whose slow-call rate — EQUALS a threshold num/den for which binary64 arithmetic is fragile "
-        "(with the companion history one short of the threshold), histories with minimum_number_of_calls left unset (default = window size), and microsecond histories (wait, window duration and slow threshold not whole milliseconds; waits and latencies 1 µs short of / at / 1 µs past them); non-trivial = the breaker left Closed at least once")
+        "(with the companion history one short of the threshold), histories with minimum_number_of_calls left unset (default = window size), and microsecond and nanosecond histories (wait, window duration and slow threshold not whole ms / µs; waits and latencies 1 unit short of / at / 1 unit past them), Farey-neighbour histories (windows of den+1, 2*den+1, 97, 100 calls whose failure or slow-call rate is the smallest fraction reaching the threshold num/den, or the largest one below it), runs of 251..511 successes without a transition followed by a window of failures (so that exactly 256*m recorded calls fall on the trip) (the extracted model is cubic in the number of callers; 65 536 calls are out of reach), operator actions also through the service's own (fallback) handle; non-trivial = the breaker left Closed at least once")
 
 
 def generate(rng, tier):
@@ -14,7 +14,9 @@ def generate(rng, tier):
     md = 45 if tier == 'quick' else 100
     return ([random_seq_history(rng) for _ in range(1500 * k)] + [long_no_transition(rng) for _ in range(30 * k)] +
             rate_boundary_scripts(rng, md) + slow_rate_boundary_scripts(rng, md) +
-            [unset_minimum_history(rng) for _ in range(150 * k)] + [random_seq_history(rng, us=True) for _ in range(400 * k)])
+            [unset_minimum_history(rng) for _ in range(150 * k)] + [random_seq_history(rng, us=True) for _ in range(300 * k)] +
+            [random_seq_history(rng, us=2) for _ in range(200 * k)] + farey_neighbour_scripts(rng, 90 * k, 12 if tier == 'quick' else 40) +
+            [long_run_then_failures(rng, 1 if tier == 'quick' else rng.choice([1, 1, 2])) for _ in range(1 if tier == 'quick' else 6)])
 
 
 def _walk(s, t):
@@ -30,7 +32,7 @@ def _walk(s, t):
     if d is None:
         return ("malformed or panicking run: %s" % t[:12], 0, 0)
     tb, wsize, wdur, minc, fnum, fden, slow_on, slow_thr, snum, sden, wait, perm, fb, n = s[:NCFG]
-    tb = tb & 1             # bit 1 of the first field is the script's time unit (µs): the machine is unit-agnostic
+    tb = tb & 1             # bits 1, 2 of the first field are the script's time unit (µs, ns): the machine is unit-agnostic
     total = len(d)
     if perm < 1 or fden <= 0 or sden <= 0:
         return (None, 0, total)
